@@ -1,5 +1,6 @@
 import GoBT.Driver.C01
 import GoBT.Driver.Sighash
+import GoBT.Driver.C13
 open GoBT GoBT.Driver
 
 def dispatch (op : String) (args : List String) (impl : String) : Answer :=
@@ -14,6 +15,11 @@ def dispatch (op : String) (args : List String) (impl : String) : Answer :=
   | "C02.pre" => c02Pre args impl
   | "C03.pre" => c03Pre args impl
   | "SH.vec" => shVec args impl
+  | "C13.enc" => c13Enc args impl
+  | "C13.tok" => c13Tok args impl
+  | "C13.asm" => c13Asm args impl
+  | "C13.hexjson" => c13HexJson args impl
+  | "C13.minpush" => c13MinPush args impl
   | _ => ("unknown-op", "n/a")
 
 partial def loop (h : IO.FS.Stream) (out : IO.FS.Stream) : IO Unit := do
